@@ -76,6 +76,13 @@ def sh(cmd, cwd=None, env=None, timeout=600, input=None, check=False):
     return rc, out, err
 
 
+def tie_broken(status):
+    """the translation tie no longer checks BECAUSE OF THE SOURCE: the bridge lemma fails, or the code left the
+    translated subset / no longer type-checks against the primitive table (tooling failures are not in this class)"""
+    return (status.startswith("bridge-broken") or "source outside the translated subset" in status
+            or "does not type-check" in status)
+
+
 class CheckBroken(Exception):
     """the machinery itself could not run (not a verdict about the property)"""
 
@@ -363,7 +370,7 @@ class Run:
                 t = {"area": a, "status": "unavailable: %s" % str(e)[:200]}
             self.log("translation tie %s: %s" % (a, t["status"]))
             ties.append(t)
-            if t["status"].startswith("bridge-broken") and not self.violations:
+            if tie_broken(t["status"]) and not self.violations:
                 # the translated code is no longer provably the model and the differential stream found no input
                 self.violation({"kind": "translation-bridge-broken", "area": a, "bridge": t["status"],
                                 "functions": t.get("functions"),
